@@ -107,10 +107,10 @@ def run_batches(ctx, compiler, tree, cases, render, tag, per=250):
             cmd = ["gcc", "-w", "-std=gnu11", "-o", exe, src]
         else:
             cmd = [tree + "/chibicc", "-I" + tree + "/include", "-o", exe, src]
-        p = subprocess.run(cmd, capture_output=True, text=True, timeout=120)
+        p = vt.run_limited(cmd, timeout=120)
         if p.returncode != 0:
             return bi, batch, ("compile", p.returncode, p.stderr[-600:]), src
-        r = subprocess.run([exe], capture_output=True, text=True, timeout=60)
+        r = vt.run_limited([exe], timeout=60, mem_gb=1)
         os.unlink(exe)
         return bi, batch, ("run", r.returncode, r.stdout), src
 
@@ -126,18 +126,50 @@ def run_batches(ctx, compiler, tree, cases, render, tag, per=250):
     return res, failed
 
 
-def bisect_failed(ctx, compiler, tree, failed, render, tag):
-    """A batch that does not compile/run: rerun its cases one by one to isolate the culprit(s)."""
+def bisect_failed(ctx, compiler, tree, failed, render, tag, limit=3):
+    """Batches that do not compile/run: the other cases still have to be judged, and the culprit has
+    to be named.  Halve recursively; give up naming culprits after `limit` of them."""
     res, bad = {}, []
-    for bi, batch, st, rc, out, src in failed:
-        r, f = run_batches(ctx, compiler, tree, batch, render, "%s-bis%d" % (tag, bi), per=1)
-        res.update(r)
-        for (_, b1, st1, rc1, out1, src1) in f:
+
+    def rec(batch, depth):
+        r, f = run_batches(ctx, compiler, tree, batch, render, "%s-bis%d-%d" % (tag, batch[0][0], depth), per=len(batch))
+        if not f:
+            res.update(r)
+            return
+        if len(batch) == 1:
+            _, b1, st1, rc1, out1, _ = f[0]
             bad.append((b1[0], st1, rc1, out1))
+            return
+        if len(bad) >= limit:
+            return
+        h = len(batch) // 2
+        rec(batch[:h], depth + 1)
+        rec(batch[h:], depth + 1)
+    for bi, batch, st, rc, out, src in failed:
+        if len(bad) >= limit:
+            break
+        rec(batch, 0)
     return res, bad
 
 
+BFSZ = {"char": 1, "short": 2, "int": 4, "uint": 4, "long": 8}
+
+
+def crosses_unit(c):
+    """Layout.tla's CrossesUnit: a packed struct in which gcc lets a bit-field cross a storage unit of its type."""
+    if not c["packed"] or c["union"]:
+        return False
+    for m, p in zip(c["ms"], c["pl"]):
+        if "bf_" in m and p["w"] > 0:
+            u = BFSZ[m.split("_")[1]] * 8
+            if p["pos"] % u + p["w"] > u:
+                return True
+    return False
+
+
 def layout_sig(c, exp, got):
+    if crosses_unit(c):
+        return "layout:packed-bitfield-crossing-unit"
     e, g = exp.split(), got.split()
     kinds = set(m.split("_")[0] if "_" in m else "obj" for m in c["ms"])
     what = "size-align" if e[2:4] != g[2:4] else "placement"
@@ -145,8 +177,8 @@ def layout_sig(c, exp, got):
                                  ":bitfield" if kinds & {"bf", "ubf"} else "")
 
 
-def compare(ctx, tree, cases, render, expect, tag, sigfn):
-    idx = list(enumerate(cases))
+def compare(ctx, tree, cases, render, expect, tag, sigfn, first=0):
+    idx = [(first + k, c) for k, c in enumerate(cases)]
     res, failed = run_batches(ctx, "chibicc", tree, idx, render, tag)
     if failed:
         r2, bad = bisect_failed(ctx, "chibicc", tree, failed, render, tag)
@@ -233,7 +265,7 @@ def replay(ctx, path):
     c = c.get("case") or c
     tree = ctx.build()
     if c.get("kind") == "layout":
-        compare(ctx, tree, [c["case"]], render_layout_case, expect_layout, "layout", layout_sig)
+        compare(ctx, tree, [c["case"]], render_layout_case, expect_layout, "layout", layout_sig, first=c.get("index", 0))
     elif c.get("kind") in ("declspec", "declarator"):
         import c08_decl
         c08_decl.replay_one(ctx, tree, c)
